@@ -204,6 +204,39 @@ def renderFinal (s : Sys) : String :=
          | none => "(t" ++ toString n ++ " missing)")
     | none => ""))
 
+/-! ### reopening: replay of the manifest (`SecondaryStorage::bootstrap`) -/
+
+structure Boot where
+  names : List (Nat × Nat) := []        -- live (name, table id)
+  nextTid : Nat := 0
+  rowsets : List Key := []
+  dvs : List (Key × Nat) := []
+
+/-- `ok`, `duplicate` (a CreateTable record for an existing name: bootstrap returns an error),
+`notfound`, or `panic` (a surviving row-set / delete vector of a table that no longer exists:
+`tables.get(..).unwrap()`). -/
+def bootReplay (log : List (List Op)) : String :=
+  let step := fun (acc : Option Boot × String) (o : Op) =>
+    match acc with
+    | (none, e) => (none, e)
+    | (some b, _) =>
+      match o with
+      | .create n =>
+          if b.names.any (fun x => x.1 == n) then (none, "err:duplicate")
+          else (some { b with names := (n, b.nextTid) :: b.names, nextTid := b.nextTid + 1 }, "")
+      | .drop t =>
+          if b.names.any (fun x => x.2 == t) then (some { b with names := b.names.filter (fun x => x.2 != t) }, "")
+          else (none, "err:notfound")
+      | .add k _ => (some { b with rowsets := k :: b.rowsets.filter (fun x => x != k) }, "")
+      | .del k => (some { b with rowsets := b.rowsets.filter (fun x => x != k) }, "")
+      | .addDv k d _ => (some { b with dvs := (k, d) :: b.dvs }, "")
+      | .delDv k d => (some { b with dvs := b.dvs.filter (fun x => !(x.1 == k && x.2 == d)) }, "")
+  match (log.flatMap id).foldl step (some {}, "") with
+  | (none, e) => e
+  | (some b, _) =>
+      if b.rowsets.all (fun k => b.names.any (fun x => x.2 == k.1))
+          && b.dvs.all (fun d => b.names.any (fun x => x.2 == d.1.1)) then "ok" else "panic"
+
 /-- Replays one `(trace ...)` line; the answer has one `(step ...)` per step of the trace. -/
 def replaySteps (s : Sys) (steps : List Sexp) (acc : String) : String × Sys × Bool :=
   match steps with
@@ -231,7 +264,8 @@ def answerTrace (line : String) : String :=
   match Sexp.parse line with
   | some (.list (.atom "trace" :: .atom id :: .list (.atom "steps" :: steps) :: _)) =>
       let (o, s, ok) := replaySteps init steps ""
-      "(model " ++ id ++ o ++ " (ok " ++ toString ok ++ ") (final " ++ renderFinal s ++ "))"
+      "(model " ++ id ++ o ++ " (ok " ++ toString ok ++ ") (final " ++ renderFinal s ++ ") (reopen "
+        ++ bootReplay s.k.log ++ "))"
   | _ => "bad-request"
 
 end SC
